@@ -149,7 +149,11 @@ async def next_step_settled(sim: SimRunner, world: World) -> bool:
         if sim.next_steps and sim.next_steps[0] == sim.progress.time:
             return True
         else:
-            await_time = sim.next_steps[0] if sim.next_steps else TieredTime(world.until) + sim.from_world_time
+            until_time = TieredTime(world.until) + sim.from_world_time
+            # A step may be scheduled at or after until (e.g. by an
+            # event with a future output time); never wait beyond
+            # until, as progress stops there.
+            await_time = min(sim.next_steps[0], until_time) if sim.next_steps else until_time
             _, pending = await asyncio.wait(
                 [
                     asyncio.create_task(sim.progress.has_reached(await_time)),
